@@ -61,6 +61,13 @@ pub fn vec_map<F: Fn(Felt) -> Felt>(v: Vec<Felt>, f: F) -> (r: Vec<Felt>)
     ensures r@.len() == v@.len(), forall|i: int| 0 <= i < v@.len() ==> call_ensures(f, (v@[i],), #[trigger] r@[i]),
 { unimplemented!() }
 
+// ---- generic form of vec_map (cli/src/transform.rs) ----------------------------------------------------------
+#[verifier::external_body]
+pub fn vec_map_g<T, U, F: Fn(T) -> U>(v: Vec<T>, f: F) -> (r: Vec<U>)
+    requires forall|i: int| 0 <= i < v@.len() ==> call_requires(f, (#[trigger] v@[i],)),
+    ensures r@.len() == v@.len(), forall|i: int| 0 <= i < v@.len() ==> call_ensures(f, (v@[i],), #[trigger] r@[i]),
+{ unimplemented!() }
+
 // ---- data.extend(slice.iter().flat_map(|x| x.to_bytes_be().to_vec())) ------------------------------------
 /// concatenation of the 32-byte big-endian encodings
 pub open spec fn concat_be32(s: Seq<nat>) -> Seq<u8> decreases s.len() {
